@@ -447,6 +447,18 @@ func (w *World) invalidIndex(l uint64, forInsert bool) uint64 {
 	if l > 0 {
 		low = uint64(r.Int63n(int64(l)))
 	}
+	// the low bits of a far index also sit exactly on the boundaries of the valid range: first, last, and the count itself
+	// (the append position of an insertion) - an index truncated to 32 or 16 bits anywhere on the way down looks valid there
+	switch r.Intn(4) {
+	case 1:
+		low = 0
+	case 2:
+		if l > 0 {
+			low = l - 1
+		}
+	case 3:
+		low = l
+	}
 	switch r.Intn(12) {
 	case 0:
 		return 1<<32 + low
